@@ -49,6 +49,14 @@ type FileSpec struct {
 	FlakyAt int     `json:"flaky_at,omitempty"` // source "flaky": a read-seeker whose first pass fails after this many bytes
 }
 
+// noRewindSeeker reads like its reader; every Seek fails
+type noRewindSeeker struct{ r *bytes.Reader }
+
+func (s *noRewindSeeker) Read(p []byte) (int, error) { return s.r.Read(p) }
+func (s *noRewindSeeker) Seek(int64, int) (int64, error) {
+	return 0, errors.New("seek: illegal seek")
+}
+
 // flakySeeker: an io.ReadSeeker over data whose first pass fails (once) after failAt bytes
 type flakySeeker struct {
 	data    []byte
@@ -518,6 +526,15 @@ func (sp *MsgSpec) Build() (*mail.Msg, []string, error) {
 		}
 		var err error
 		switch f.Source {
+		case "norewind":
+			// a source that can be read but not rewound (the read end of a pipe): the producer emits everything and
+			// then reports the failed rewind
+			src := &noRewindSeeker{r: bytes.NewReader(f.Content)}
+			if f.Attach {
+				m.AttachReadSeeker(f.Name, src, fo...)
+			} else {
+				m.EmbedReadSeeker(f.Name, src, fo...)
+			}
 		case "flaky":
 			src := &flakySeeker{data: f.Content, failAt: f.FlakyAt}
 			if f.Attach {
@@ -669,7 +686,7 @@ func (sp *MsgSpec) Build() (*mail.Msg, []string, error) {
 				set(fl)
 			}
 		}
-		if f.Fails {
+		if f.Fails && f.Source != "norewind" {
 			var fl *mail.File
 			if f.Attach {
 				l := m.GetAttachments()
